@@ -561,3 +561,133 @@ def truth_phased_doc(sim, rng, tag="PS", block_len=(3, 8), samples=None, interle
             for c in r["calls"]:
                 c.setdefault(key, ".")
     return d, blocks
+
+
+def simulate_poly(rng, tmp, p):
+    """Polyploid data set: SNVs (bi- and multi-allelic), P true haplotypes per sample (optionally with identical copies =
+    collapsed haplotypes), reads = haplotype copies with optional substitution errors, coverage gaps. Plain M CIGARs."""
+    import pysam
+
+    from wv.gen import vcf as gvcf
+
+    sim = Sim()
+    P = p.get("ploidy", 4)
+    samples = list(p.get("samples", ["sampleA"]))
+    sim.samples, sim.ploidy = samples, P
+    sim.chroms = ["chr%d" % (i + 1) for i in range(p.get("n_chrom", 1))]
+    sim.ref, sim.variants, sim.haps = {}, {}, {}
+    L = p.get("chrom_len", 3000)
+    for c in sim.chroms:
+        refseq = random_reference(rng, L)
+        sim.ref[c] = refseq
+        n = p.get("n_var", 15)
+        pos = sorted(rng.sample(range(40, L - 40, 1), n * 3))
+        chosen = []
+        for x in pos:
+            if not chosen or x - chosen[-1] >= p.get("min_gap", 20):
+                chosen.append(x)
+        chosen = chosen[:n]
+        vs = []
+        for x in chosen:
+            ref = refseq[x]
+            others = [b for b in BASES if b != ref]
+            rng.shuffle(others)
+            nalt = 2 if rng.random() < p.get("multiallelic", 0.0) else 1
+            vs.append({"pos": x, "ref": ref, "alts": others[:nalt]})
+        sim.variants[c] = vs
+        haps = {}
+        for s in samples:
+            base = []
+            distinct = rng.randint(2, P) if rng.random() < p.get("collapse", 0.0) else P
+            for h in range(distinct):
+                base.append([rng.randint(0, len(v["alts"])) if rng.random() < 0.6 else 0 for v in vs])
+            hs = [base[h % distinct][:] for h in range(P)]
+            haps[s] = hs
+        sim.haps[c] = haps
+    sim.fasta = os.path.join(tmp, "ref.fa")
+    with open(sim.fasta, "w") as fh:
+        for c in sim.chroms:
+            fh.write(">%s\n" % c)
+            s_ = sim.ref[c]
+            for i in range(0, len(s_), 60):
+                fh.write(s_[i : i + 60] + "\n")
+    pysam.faidx(sim.fasta)
+    header = {"HD": {"VN": "1.5", "SO": "coordinate"}, "SQ": [{"SN": c, "LN": L} for c in sim.chroms],
+              "RG": [{"ID": "rg_" + s, "SM": s} for s in samples]}
+    sim.reads = []
+    rid = 0
+    err = p.get("error_rate", 0.0)
+    depth = p.get("depth", 8)
+    rl_min, rl_max = p.get("read_len", (200, 800))
+    gaps = []
+    for _ in range(p.get("coverage_gaps", 0)):
+        g = rng.randrange(200, L - 400)
+        gaps.append((g, g + rng.randint(100, 400)))
+    for c in sim.chroms:
+        for s in samples:
+            nfrag = max(1, int(depth * P * L / ((rl_min + rl_max) / 2)))
+            for _ in range(nfrag):
+                h = rng.randrange(P)
+                fl = rng.randint(rl_min, rl_max)
+                a = max(0, rng.randrange(-fl // 2, L - fl // 2))
+                b = min(L, a + fl)
+                if b - a < 40 or any(a < g1 and b > g0 for g0, g1 in gaps):
+                    continue
+                seq = list(sim.ref[c][a:b])
+                for v, al in zip(sim.variants[c], sim.haps[c][s][h]):
+                    if a <= v["pos"] < b and al > 0:
+                        seq[v["pos"] - a] = v["alts"][al - 1]
+                if err:
+                    for i in range(len(seq)):
+                        if rng.random() < err:
+                            seq[i] = rng.choice([x for x in BASES if x != seq[i]])
+                seq = "".join(seq)
+                if rng.random() < p.get("paired", 0.0) and b - a >= 200:
+                    l1 = rng.randint(40, (b - a) // 2 - 20)
+                    l2 = rng.randint(40, (b - a) // 2 - 20)
+                    sim.reads.append({"name": "p%06d" % rid, "chrom": c, "sample": s, "hap": h, "start": a, "seq": seq[:l1], "mate": 1, "mate_start": b - l2})
+                    sim.reads.append({"name": "p%06d" % rid, "chrom": c, "sample": s, "hap": h, "start": b - l2, "seq": seq[len(seq) - l2:], "mate": 2, "mate_start": a})
+                else:
+                    sim.reads.append({"name": "p%06d" % rid, "chrom": c, "sample": s, "hap": h, "start": a, "seq": seq})
+                rid += 1
+    path = os.path.join(tmp, "reads.bam")
+    with pysam.AlignmentFile(path, "wb", header=header) as out:
+        for r in sorted(sim.reads, key=lambda r: (sim.chroms.index(r["chrom"]), r["start"])):
+            a = pysam.AlignedSegment(out.header)
+            a.query_name = r["name"]
+            a.reference_id = sim.chroms.index(r["chrom"])
+            a.reference_start = r["start"]
+            a.mapping_quality = 60
+            a.cigartuples = [(0, len(r["seq"]))]
+            a.query_sequence = r["seq"]
+            a.query_qualities = pysam.qualitystring_to_array("I" * len(r["seq"]))
+            a.flag = 0
+            if r.get("mate"):
+                a.flag = 1 | 2 | (64 | 32 if r["mate"] == 1 else 128 | 16)
+                a.next_reference_id = a.reference_id
+                a.next_reference_start = r["mate_start"]
+            a.set_tag("RG", "rg_" + r["sample"])
+            out.write(a)
+    pysam.index(path)
+    sim.bams = [path]
+    d = gvcf.Doc()
+    d.samples = list(samples)
+    d.contigs = list(sim.chroms)
+    d.meta.append("##fileformat=VCFv4.2")
+    for c in sim.chroms:
+        d.meta.append("##contig=<ID=%s,length=%d>" % (c, L))
+    d.meta.append('##INFO=<ID=DP,Number=1,Type=Integer,Description="depth">')
+    d.meta.append('##FORMAT=<ID=GT,Number=1,Type=String,Description="Genotype">')
+    d.meta.append('##FORMAT=<ID=GQ,Number=1,Type=Integer,Description="GQ">')
+    for c in sim.chroms:
+        for i, v in enumerate(sim.variants[c]):
+            calls = []
+            for s in samples:
+                g = sorted(sim.haps[c][s][h][i] for h in range(P))
+                calls.append({"GT": "/".join(str(x) for x in g), "GQ": str(rng.randint(20, 99))})
+            d.records.append({"chrom": c, "pos": v["pos"] + 1, "id": ".", "ref": v["ref"], "alts": v["alts"], "qual": "50", "filter": "PASS",
+                              "info": "DP=%d" % rng.randint(5, 90), "fmt": ["GT", "GQ"], "calls": calls, "kind": "snv"})
+    sim.doc = d
+    sim.vcf = os.path.join(tmp, "in.vcf")
+    d.write(sim.vcf)
+    return sim
